@@ -1,5 +1,5 @@
 CFGS = ["sse2", "sse2-rel", "scalar", "coresimd", "fma", "libm", "asan"]
-BINS = ["lane", "tok", "int", "lin", "mask", "conv", "hid", "rot", "interp", "safe", "chain", "geom", "rec"]
+BINS = ["lane", "tok", "int", "lin", "mask", "conv", "hid", "rot", "interp", "safe", "chain", "geom", "rec", "fold"]
 # feature builds (serde, bytemuck, mint, rkyv)
 FEAT_CFGS = ["feat", "feat-scalar", "feat-coresimd"]
 FEAT_BINS = ["ser"]
